@@ -445,7 +445,7 @@ func Read[S, D SignalTypes](src *Buffer[S], dst []D) int {
 func ReadStriped[S, D SignalTypes](src *Buffer[S], dst [][]D) (read int) {
 	mustSame(src.Channels(), len(dst), diffChannels)
 	for c := 0; c < src.Channels(); c++ {
-		length := min(len(dst[c]), src.Length())
+		length := min(len(dst[c]), src.channelLength(c))
 		if length > read {
 			read = length
 		}
@@ -482,7 +482,9 @@ func WriteStriped[S, D SignalTypes](src [][]S, dst *Buffer[D]) (written int) {
 	// limit a number of writes to the length of the Buffer
 	written = min(written, dst.Length())
 	for c := 0; c < dst.Channels(); c++ {
-		for i := 0; i < written; i++ {
+		// a partially filled last frame is written as far as it exists
+		length := min(written, dst.channelLength(c))
+		for i := 0; i < length; i++ {
 			if i < len(src[c]) {
 				dst.SetSample(dst.BufferIndex(c, i), D(src[c][i]))
 			} else {
